@@ -1094,8 +1094,39 @@ def lone_cr_comment_variant(text, rng):
     return "\n".join(l for l in out if l is not None)
 
 
+def run_spacing_grid(ctx):
+    """TokenSpacing on every vector of token TYPES [prev, left, right] (left, right over ALL generated token
+    types; prev over a representative set and "none"; 0..2 original spaces), the real rule against the model:
+    the rule only reads types and space counters, so this finite sweep ties the model to it exhaustively"""
+    import subprocess
+    tier = "quick" if ctx.quick() else "thorough"
+    if getattr(ctx, "_spacing_grid_done", False):
+        return
+    ctx._spacing_grid_done = True
+    f = os.path.join(build.CACHE, "run", "sg_%d.txt" % os.getpid())
+    os.makedirs(os.path.dirname(f), exist_ok=True)
+    with open(f, "wb") as o:
+        p = subprocess.run([build.VH, "unit", "spacinggrid", tier], stdout=o, env=build.ENV, timeout=1800)
+    if p.returncode != 0:
+        ctx.corr_diffs.append(("spacinggrid", "spacinggrid", "harness unit failed with exit code %d" % p.returncode))
+    q = subprocess.run([build.DRIVER, "spacinggrid-" + tier, f], stdout=subprocess.PIPE, timeout=1800)
+    n_ok = n_bad = 0
+    for line in q.stdout.decode().splitlines():
+        if line.startswith("SPACING OK"):
+            n_ok, n_bad = int(line.split()[2]), int(line.split()[4])
+        elif line.startswith("SPACING DIFF"):
+            ctx.corr_diffs.append(("spacinggrid", "spacinggrid", line))
+    if n_ok + n_bad == 0:
+        ctx.corr_diffs.append(("spacinggrid", "spacinggrid", "no grid row was evaluated"))
+    os.remove(f)
+    ctx.corr_counts["spacinggrid"] = [n_ok, n_bad]
+    ctx.traces_validated += n_ok
+    ctx.evaluations += n_ok + n_bad
+
+
 def run_c02(ctx):
     rng = ctx.rng
+    run_spacing_grid(ctx)
     cases = []
     crcases = []
     for text, kind, wrap in wellformed_texts(ctx, ctx.n(60, 1500))[:: ctx.n(3, 1)]:
@@ -1117,6 +1148,7 @@ def run_c02(ctx):
 
 def run_c06(ctx):
     rng = ctx.rng
+    run_spacing_grid(ctx)
     pairs = []
     for text, kind, wrap in wellformed_texts(ctx, ctx.n(250, 5000)):
         for _ in range(ctx.n(1, 3)):
